@@ -875,7 +875,7 @@ def worker(task):
             except Exception as e:  # noqa
                 import traceback
                 results.append((s, [('harness-exception', 0, None, traceback.format_exc()[-800:])], None, None))
-        return dict(name=scn['name'], deterministic=deterministic, base=base, results=results,
+        return dict(name=scn['name'], seed=seed, deterministic=deterministic, base=base, results=results,
                     base_diff=diff_outcomes(base, base2, False))
     except Exception:  # noqa
         import traceback
